@@ -631,6 +631,17 @@ MP("x-vlq-by-length-stops-late", "C07", "R07.6", "features/ho6-4", SER,
 MP("x-vlq-by-length-other-length", "C07", "R07.6", "features/ho6-4", SER,
    "    return (i.bit_length() // 7) + 1\n", "    return (i.bit_length() // 8) + 1\n")
 
+# the receive loop over a bytearray (`del buf[:k]` read as `buf = buf[k:]`): defects inside it are still defects
+MP("x-bytearray-receiver-drops-three-of-magic", "C11", ["P3", "P6", "P7"], "features/hm3-5", RP,
+   "                self.magic_read = True\n                del self.buffer[:4]\n",
+   "                self.magic_read = True\n                del self.buffer[:3]\n")
+MP("x-bytearray-receiver-waits-one-byte-more", "C11", ["P3", "P4", "P5"], "features/hm3-5", RP,
+   "            if self.len is None or self.len > len(self.buffer):", "            if self.len is None or self.len >= len(self.buffer):")
+MP("x-bytearray-receiver-magic-not-refused", "C11", ["P7", "RX.2"], "features/hm3-5", RP,
+   "                if self.buffer[:4] != MAGIC:\n                    raise Exception(\"Insufficient magic\")\n", "")
+MP("x-bytearray-receiver-frame-not-dropped", "C11", ["P5", "P3", "P6"], "features/hm3-5", RP,
+   "            del self.buffer[:self.len]\n", "")
+
 # ----------------------------------------------------------------------------------------------- round-5 rules
 M("x-late-bound-locator-rows", "C08", "RX.3", BS,
   "            for transaction in block.transactions:\n",
